@@ -261,7 +261,8 @@ pub fn junk_hostile(r: &mut Rng, n: usize) -> Vec<u8> {
             }
             3 => {
                 // IDAT with bad length / CRC
-                v.extend_from_slice(&(r.below(70) as u32).to_be_bytes());
+                let l = if r.chance(1, 4) { 0 } else { r.below(70) as u32 };
+                v.extend_from_slice(&l.to_be_bytes());
                 v.extend_from_slice(b"IDAT");
                 let k = r.usize_below(80);
                 v.extend(r.bytes(k));
